@@ -32,6 +32,7 @@ type c18Res struct {
 	Problems     []string `json:"problems"`
 	Established  int      `json:"established"`
 	Leaked       []string `json:"leaked,omitempty"`
+	Events       []string `json:"events,omitempty"` // callback / handler log, oldest first: E:<sid> F:<sid> H:<sid>
 }
 
 const guestUUID = "7b2f3a52-9f0d-4c0b-8d5e-0a4d4f1f2c11"
@@ -275,6 +276,7 @@ func runC18Case(c *c18Case) c18Res {
 		time.Sleep(5 * time.Millisecond)
 	}
 	cb.mu.Lock()
+	res.Events = append([]string{}, cb.events...)
 	estSids := map[string]bool{}
 	for _, cl := range clis {
 		if cl.est {
@@ -407,7 +409,7 @@ func init() {
 				cases = append(cases, &c)
 			}
 		} else {
-			n := e.N(60, 1200)
+			n := e.N(240, 4000)
 			for i := 0; i < n; i++ {
 				cases = append(cases, genC18Case(e))
 			}
@@ -451,6 +453,37 @@ func init() {
 					e.Rep.Sample(map[string]interface{}{"case": c, "res": res}, 3)
 					if len(res.Problems) == 0 {
 						e.Rep.Count("outcome=ok")
+					}
+					// the callback log, judged by the compiled Lean predicate as well
+					if e.Drv != nil {
+						idx := map[string]int{}
+						log := [][]interface{}{}
+						for _, ev := range res.Events {
+							sid := ev[2:]
+							if _, ok := idx[sid]; !ok {
+								idx[sid] = len(idx)
+							}
+							log = append(log, []interface{}{ev[:1], idx[sid]})
+						}
+						var jr struct {
+							Paired      bool `json:"paired"`
+							AllFinished bool `json:"allFinished"`
+						}
+						if err := e.Drv.Call(map[string]interface{}{"m": "srvlife", "log": log}, &jr); err != nil {
+							if firstErr == nil {
+								firstErr = err
+							}
+						} else {
+							goBad := false
+							for _, p := range res.Problems {
+								if strings.Contains(p, "callback") || strings.Contains(p, "Callback") || strings.Contains(p, "handler ran before") {
+									goBad = true
+								}
+							}
+							if (jr.Paired && jr.AllFinished) == goBad {
+								e.Rep.Violate("corr", "c18-corr-judge", fmt.Sprintf("callback log %v: the Lean judge says paired=%v allFinished=%v, the harness judge found callback problems=%v", res.Events, jr.Paired, jr.AllFinished, goBad), map[string]interface{}{"case": c, "res": res})
+							}
+						}
 					}
 					for _, p := range res.Problems {
 						k := c18Key(p)
